@@ -9,13 +9,14 @@
   diffs them with `render`.
 -/
 import QExPy.Model.Expr
+import QExPy.Generated.Plot
 namespace QExPy.Plot
 variable {α : Type} [Num α]
 
 /-! ### numeric helpers -/
 
 /-- `low <= x < high` (`XYDataSetOnPlot.__get_indices_from_xrange`) -/
-def inRange (lo hi x : α) : Bool := Num.le lo x && Num.lt x hi
+def inRange (lo hi x : α) : Bool := Gen.plotInRange lo hi x
 
 /-- numpy boolean-mask indexing `arr[mask]` -/
 def maskBy : List Bool → List α → List α
@@ -164,7 +165,7 @@ def useRange (f : Func α) (dom : Option (α × α)) : Option (α × α) :=
   | some r => some r
   | none => dom
 
-def xsOn (r : α × α) : List α := linspace r.1 r.2 100
+def xsOn (r : α × α) : List α := linspace r.1 r.2 Gen.plotCurvePoints
 
 /-- `FunctionOnPlot.show`: the curve on 100 points and, with error bars on, the band y ± err -/
 def draw (errorBars : Bool) (dom : Option (α × α)) (f : Func α) : List (DrawCmd α) :=
@@ -287,8 +288,7 @@ def pick (override : String) (offers : List String) : String :=
   if override = "" then firstNonEmpty offers else override
 
 /-- `name + "[unit]"`, the bracket omitted when there is no unit -/
-def axisLabel (name unit : String) : String :=
-  name ++ (if unit = "" then "" else "[" ++ unit ++ "]")
+def axisLabel (name unit : String) : String := Gen.plotAxisLabel name unit
 
 namespace Plot
 
